@@ -57,8 +57,9 @@ def model_oracle(sc, out):
             for r in prev_results[n]:
                 if r in new:
                     new.remove(r)
-            if len(set(new)) > 1:
-                found.append(("callers-got-different-pids", "name nm%d: calls completing together were handed different instances %s" % (n, sorted(set(new))),
+            okres = set(r for r in new if r != 0)      # 0 = the call returned an error (its own context, or the flight failed)
+            if len(okres) > 1:
+                found.append(("callers-got-different-pids", "name nm%d: calls completing together were handed different instances %s" % (n, sorted(okres)),
                               {"action_index": ai, "name": n}))
             for r in set(new):
                 # a result is wrong if the instance handed out is not the running registered one at that point
@@ -102,12 +103,12 @@ def run(ctx):
     ctx.trusted += ["hand-written Gallina model C11/Model.v (tied each run, observation after every driver action)",
                     "x/sync singleflight contract (callers during a flight share its result; key forgotten on completion) — exercised, not proved",
                     "Go runtime scheduler for the un-gated parts of a scenario"]
-    ctx.assumptions += ["cluster mode off (checkSpawnPreconditions is a no-op); reliable-delivery companions not spawned",
+    ctx.assumptions += ["cluster mode off except in the registry scenarios (mock registry: ActorExists=false, PutActor fails on demand); reliable-delivery companions not spawned",
                         "instances of a func actor are identified by creation order (exact for struct actors)"]
     scs = U.gen_scenarios(ctx)
     with open(os.path.join(ctx.work, "c11_model_in.jsonl"), "w") as f:
         for c in scs:
-            f.write(json.dumps({k: c[k] for k in ("k", "kinds", "actions", "expect")}) + "\n")
+            f.write(json.dumps({k: c[k] for k in ("k", "kinds", "actions", "expect", "cluster")}) + "\n")
     for fn in ("c11_model_out.jsonl", "c11_stress_out.jsonl"):
         p = os.path.join(ctx.work, fn)
         if os.path.exists(p):
@@ -136,7 +137,7 @@ def run(ctx):
         for a in sc["actions"]:
             hist[a[0]] = hist.get(a[0], 0) + 1
         for sig, what, detail in model_oracle(sc, o):
-            report(classify(sc, sig), what, {"scenario": {k: sc[k] for k in ("k", "kinds", "actions")}, "detail": detail,
+            report(classify(sc, sig), what, {"scenario": {k: sc[k] for k in ("k", "kinds", "actions", "cluster")}, "detail": detail,
                                              "observations": [s_["o"] for s_ in o["steps"]],
                                              "how": "TestVerifC11Model on a real actor system (obs per name: [registered instance+1, running instances], results handed so far; last: NumActors)"})
         calls = {}
@@ -144,7 +145,7 @@ def run(ctx):
             if a[0] == "call":
                 calls[a[1]] = calls.get(a[1], 0) + 1
         if any(v >= 2 for v in calls.values()):
-            nontrivial.add(canon_hash({k: sc[k] for k in ("k", "kinds", "actions")}))
+            nontrivial.add(canon_hash({k: sc[k] for k in ("k", "kinds", "actions", "cluster")}))
     # ---- oracle (S)
     for so in souts:
         if so["phase"] == "respawn-skipped":
@@ -189,7 +190,7 @@ Eval vm_compute in summary.
                 detail = []
                 for ci, si in re.findall(r"\((\d+), (\d+)\)", m.group(3)):
                     ci, si = int(ci), int(si)
-                    detail.append({"scenario": {k: scs[ci][k] for k in ("k", "kinds", "actions")}, "first_diverging_action_index": si,
+                    detail.append({"scenario": {k: scs[ci][k] for k in ("k", "kinds", "actions", "cluster")}, "first_diverging_action_index": si,
                                    "implementation_showed": mouts[ci]["steps"][si] if si < len(mouts[ci]["steps"]) else None,
                                    "generator_expected": scs[ci]["expect"][si] if si < len(scs[ci]["expect"]) else None})
                 ctx.tie_broken("spawn model vs real actor system (observation after every driver action)", {"mismatching_scenarios": mism, "first": detail})
